@@ -71,7 +71,7 @@ def cases(draw, tier):
     elif shape == "long_valid" and k <= 10:
         # dozens of windows (24k..40k symbols), extended greedily so that every window keeps satisfying the
         # documented predicate (the way an emitted strand does); sometimes spoilt at one place afterwards
-        target, text = rng.randrange(24 * k, 40 * k + 1), []
+        target, text = rng.choice([rng.randrange(24 * k, 40 * k + 1), rng.randrange(250, 340)]), []
         while len(text) < target:
             for c in rng.sample("ACGT", 4):
                 if len(text) + 1 < k or o.ref_local_filter(cfg, "".join(text[-(k - 1):] if k > 1 else []) + c,
@@ -80,8 +80,17 @@ def cases(draw, tier):
                     break
             else:
                 break
-        if text and rng.random() < 0.25:
-            text[rng.randrange(len(text))] = rng.choice("ACGT")
+        if text and rng.random() < 0.4:
+            # one symbol replaced: anywhere, inside the very first window, or inside the very last one
+            where = rng.choice([rng.randrange(len(text)), rng.randrange(min(k, len(text))),
+                                len(text) - 1 - rng.randrange(min(k, len(text)))])
+            text[where] = rng.choice("ACGT")
+            if cfg["gc"] is not None and rng.random() < 0.5 and len(text) >= k:
+                # push the first (or last) window out of the GC range as a whole
+                fill = rng.choice(["GC", "AT"])
+                span = range(0, k) if rng.random() < 0.5 else range(len(text) - k, len(text))
+                for i in span:
+                    text[i] = rng.choice(fill)
     text = "".join(text)
     # further strings judged by the SAME filter object afterwards (verdicts must not depend on earlier calls):
     # variants that share a long suffix with the first string, and the first string again
@@ -172,6 +181,10 @@ def evaluate(case):
             labels.append("rc_only_motif_hit")
     if len(text) < k:
         labels.append("shorter_than_window")
+    if len(text) >= 256:
+        labels.append("len>=256")
+        if not verdicts[False]:
+            labels.append("len>=256_rejected")
     if len(text) >= 24 * k:
         labels.append("windows>=24")
         if verdicts[False]:
@@ -187,7 +200,7 @@ SUBCHECKS = [
              floors={"gc_on_bound": 500, "rc_only_motif_hit": 150, "window_conjunction": 1500,
                      "shorter_than_window": 800, "foreign": 300, "accepts": 1500, "rejects": 1500, "rules=3": 300,
                      "same_object_again": 1500, "k=40": 200, "run=0": 200, "trailing_newline": 60,
-                     "windows>=24": 600, "windows>=24_accepted": 250},
+                     "windows>=24": 600, "windows>=24_accepted": 250, "len>=256": 150, "len>=256_rejected": 40},
              rule=RULE),
 ]
 
